@@ -7,6 +7,7 @@ open ConnModel
 inductive Beh where
   | normal (code : Nat)
   | getBody (m : Nat)
+  | getBodyThen (m : Nat) (second : String)   -- second-call behaviour: n<code> | d | p | a
   | always (m : Nat)
   | drop
   | panic
@@ -23,6 +24,11 @@ deriving Repr
 def parseBeh (s : String) : Beh :=
   let k := (s.take 1).toString
   let n := ((s.drop 1).toString.toNat?).getD 0
+  if k == "g" && s.contains '-' then
+    match ((s.drop 1).toString).splitOn "-" with
+    | [m, second] => .getBodyThen (m.toNat?.getD 0) second
+    | _ => .panic
+  else
   if k == "n" then .normal n else if k == "g" then .getBody n else if k == "a" then .always n
   else if k == "d" then .drop else .panic
 
@@ -59,6 +65,13 @@ def handlerOf (reqs : List SReq) (v : ReqView) : HandlerOut :=
     | none => .getBody m
     | some (.vec b) => .normal (Response.text 200 (str s!"got-{ps}-{b.length}"))
     | some (.file _ b) => .normal (Response.text 200 (str s!"got-{ps}-{b.length}"))
+  | .getBodyThen m second =>
+    match v.body with
+    | none => .getBody m
+    | some _ =>
+      let k := (second.take 1).toString
+      if k == "n" then .normal (Response.text ((second.drop 1).toString.toNat?.getD 200) (str s!"resp-{ps}"))
+      else if k == "d" then .drop else if k == "p" then .panic else .getBody m
   | .always m => .getBody m
   | .drop => .drop
   | .panic => .panic
@@ -77,7 +90,7 @@ def obsGet (obs key : String) : Option String :=
     if kv.startsWith (key ++ "=") then some (kv.drop (key.length + 1)).toString else none
 
 /-- Invariants of C04 over (requests sent, handler calls, responses received). -/
-def exchangeCheck (reqs : List SReq) (calls : List String) (wire : Bytes) : List String :=
+def exchangeCheck (reqs : List SReq) (calls : List String) (wire : Bytes) (cut : Bool := false) : List String :=
   let idxOf := fun (call : String) =>
     match call.splitOn ":" with
     | [_, p, _] => reqs.findIdx? (fun r => r.path == p)
@@ -89,14 +102,17 @@ def exchangeCheck (reqs : List SReq) (calls : List String) (wire : Bytes) : List
   let sorted := (is.zip (is.drop 1)).all fun p => p.1 ≤ p.2
   let counts := reqs.zipIdx.map fun (_, i) => (is.filter (· == i)).length
   let multOk := (reqs.zip counts).all fun (r, n) =>
-    n ≤ 1 || (n == 2 && (match r.beh with | .getBody _ | .always _ => true | _ => false))
+    n ≤ 1 || (n == 2 && (match r.beh with | .getBody _ | .always _ | .getBodyThen _ _ => true | _ => false))
   -- I3: bodies seen equal bodies sent; a second call sees the complete body
   let bodiesOk := calls.all fun call =>
     match call.splitOn ":" with
     | [_, p, b] =>
       if b == "P" then true else
       match reqs.find? (fun r => r.path == p), decBytes (b.drop 1).toString with
-      | some r, some seen => r.framing == "c" || seen == r.body
+      | some r, some seen =>
+        -- chunked bodies are never delivered; a body of undeclared length runs to the end of the stream
+        r.framing == "c" || seen == r.body || ((r.framing == "u" || r.framing == "v") && r.body.isPrefixOf seen) ||
+          (cut && seen.isPrefixOf r.body)
       | _, _ => false
     | _ => false
   let twiceOk := (reqs.zipIdx.all fun (r, i) =>
@@ -138,14 +154,47 @@ where
   ConnContractInfix (needle hay : Bytes) : Bool :=
     (List.range (hay.length + 1)).any fun i => needle.isPrefixOf (hay.drop i)
 
-def handle (args : List String) (obs : String) : String :=
+/-- C09 (single-request scenarios `POST … g<M>`): the boundary table, from the property statement. -/
+def sizeCheck (small : Nat) (cache : Bool) (reqs : List SReq) (calls : List String) (wire : Bytes) : List String :=
+  match reqs with
+  | [r] =>
+    match r.beh with
+    | .getBody m =>
+      let declared := r.framing == "k" || r.framing == "e" || r.framing.startsWith "d" || r.framing.startsWith "f"
+      let len := if r.framing.startsWith "d" || r.framing.startsWith "f" then (r.framing.drop 1).toString.toNat?.getD 0 else r.body.length
+      let complete := len == r.body.length
+      let finals := ((ConnContract.responses (wire.length + 1) wire []).getD []).filter (·.code / 100 != 1)
+      let code := (finals.head?.map (·.code)).getD 0
+      let pendingCalls := (calls.filter fun c => (c.splitOn ":").getLast? == some "P").length
+      let bodyCalls := calls.length - pendingCalls
+      if declared && len ≤ small then
+        -- handed over in memory without asking
+        (if pendingCalls == 0 then [] else ["small-body-not-delivered-directly"]) ++
+        (if complete && bodyCalls != 1 then ["small-body-handler-runs"] else [])
+      else if !cache then
+        (if pendingCalls == 1 && bodyCalls == 0 && code == 500 then [] else ["large-body-without-cache-dir"])
+      else if declared && len == 0 then []   -- a declared empty body is "no body"
+      else if len ≤ m then
+        (if pendingCalls == 1 then [] else ["handler-not-asked-first"]) ++
+        (if complete && !(bodyCalls == 1 && code == 200) then ["body-within-limit-not-accepted"] else [])
+      else
+        (if pendingCalls == 1 && bodyCalls == 0 then [] else ["second-run-on-oversized-body"]) ++
+        (if code == 413 then [] else ["oversized-body-not-413"])
+    | _ => []
+  | _ => []
+
+def handle (tag : String) (args : List String) (obs : String) : String :=
   match args with
   | [small, cache, _sched, reqsS] =>
     match (splitNonEmpty reqsS ";").mapM parseReq, small.toNat? with
     | some reqs, some s =>
-      let all := (reqs.map reqBytes).flatten
-      let cfg : Cfg := { smallBodyLen := s, cacheDir := cache == "1" }
-      let (c, calls) := handleConn false C05.simpleUrl cfg (handlerOf reqs) 64 { input := all } []
+      let full := (reqs.map reqBytes).flatten
+      -- `cut<N>`: the client sends only the first N bytes and goes away
+      let all := if _sched.startsWith "cut" then full.take ((_sched.drop 3).toString.toNat?.getD full.length) else full
+      let cfg : Cfg := { smallBodyLen := s, cacheDir := cache != "0", fs := { createFails := cache == "2" } }
+      let (c, calls1) := handleConn false C05.simpleUrl cfg (handlerOf reqs) 64 { input := all } []
+      -- `par3`: three connections send the same bytes; the merged call log is compared sorted
+      let calls := calls1
       -- The server closed while client bytes were still unread: the kernel answers with a reset, and a
       -- reset may discard the tail of what the server had written (TCP, not servlin).  Then, and only
       -- then, a transcript that is a proper prefix of the expected one is accepted.
@@ -154,13 +203,20 @@ def handle (args : List String) (obs : String) : String :=
         | some w => !c.input.isEmpty && w.length < c.wire.length && w.isPrefixOf c.wire
         | none => false
       let shownWire := if tailLost then obsWire.getD c.wire else c.wire
-      let model := s!"calls={"|".intercalate (calls.map showCall)} wire={encBytes shownWire} files={c.live.length}"
+      let callStrs := calls.map showCall
+      let callStrs := if _sched == "par3" then (callStrs ++ callStrs ++ callStrs).mergeSort (fun a b => a ≤ b) else callStrs
+      let model := s!"calls={"|".intercalate callStrs} wire={encBytes shownWire} files={c.live.length}"
       let verdict :=
         if obs == "PANIC" then "FAIL:panic:" else
         match obsGet obs "calls", obsWire, obsGet obs "files" with
         | some cs, some wire, some files =>
-          let fails := exchangeCheck reqs (splitNonEmpty cs "|") (if tailLost then c.wire else wire) ++
-            (if files == "0" then [] else ["temp-file-left-behind"])
+          let obsCalls := splitNonEmpty cs "|"
+          -- par3: judge one connection's share of the merged log
+          let parOk := _sched != "par3" || obsCalls == callStrs
+          let obsCalls := if _sched == "par3" then calls1.map showCall else obsCalls
+          let fails := (if parOk then [] else ["concurrent-connections-interfere"]) ++
+            exchangeCheck reqs obsCalls (if tailLost then c.wire else wire) (_sched.startsWith "cut") ++
+            (if files == "0" then [] else ["temp-file-left-behind"]) ++ (if tag == "c09" then sizeCheck s (cache != "0") reqs obsCalls wire else [])
           if fails.isEmpty then (if tailLost then "ok-tail-lost-to-reset" else "ok") else "FAIL:" ++ ",".intercalate fails ++ ":"
         | _, _, _ => "FAIL:unparsable-observation:"
       model ++ "\t" ++ verdict
